@@ -756,7 +756,9 @@ def seq_getitem(I, obj, key):
                 els = [obj.get(k) for k in range(lo, max(lo, hi))]
                 if not obj.is_nd:
                     return els
-                return Arr(len(els), elems=els, dtype=obj.dtype, is_nd=True)
+                r_ = Arr(len(els), elems=els, dtype=obj.dtype, is_nd=True)
+                r_.view_of = (obj, lo)  # a basic slice of an ndarray is a VIEW: in-place writes go through (ops.write_back)
+                return r_
             ln = ops.smax(0, ops.scalar_binop("-", hi, lo))
             base = obj
 
@@ -769,7 +771,10 @@ def seq_getitem(I, obj, key):
             # so a snapshot is taken (writes through views would be Unsupported below anyway)
             snap = obj.copy()
             base = snap
-            return Arr(ln, fn=lambda i, lo=lo, snap=snap: fn(i, lo, snap), dtype=obj.dtype, is_nd=obj.is_nd)
+            r_ = Arr(ln, fn=lambda i, lo=lo, snap=snap: fn(i, lo, snap), dtype=obj.dtype, is_nd=obj.is_nd)
+            if obj.is_nd:
+                r_.view_of = (obj, None)  # symbolic bounds: a write through this view cannot be propagated (Unsupported)
+            return r_
         if isinstance(key, Arr) and key.dtype == "bool":
             if not obj.is_nd:
                 raise PyRaise("TypeError", "only integer scalar arrays can be converted to a scalar index")
@@ -817,6 +822,14 @@ def seq_setitem(I, obj, key, v):
             return
         for k in range(len(obj)):
             obj[k] = ops.ite(Sym(idx == k, "bool"), v, obj[k])
+        return
+    if isinstance(obj, Arr) and getattr(obj, "view_of", None) is not None and not getattr(I, "_in_write_back", False):
+        I._in_write_back = True
+        try:
+            seq_setitem(I, obj, key, v)
+        finally:
+            I._in_write_back = False
+        ops.write_back(obj)
         return
     if isinstance(obj, Arr):
         if isinstance(key, SliceVal):
